@@ -25,7 +25,7 @@ theorem isException_ay (c : AyCls) : (Cls.ay c).isException = true := rfl
 @[simp] theorem recreate_pl (fl : Flags) (e : Exc) : (recreate fl e).pl = e.pl := rfl
 @[simp] theorem recreate_context (fl : Flags) (e : Exc) : (recreate fl e).context = some e := rfl
 @[simp] theorem recreate_suppress (fl : Flags) (e : Exc) : (recreate fl e).suppress = true := rfl
-@[simp] theorem recreate_cause (fl : Flags) (e : Exc) : (recreate fl e).cause = if fl.includeOriginal then e.context else none := rfl
+@[simp] theorem recreate_cause (fl : Flags) (e : Exc) : (recreate fl e).cause = if fl.includeOriginal then e.cause else none := rfl
 
 theorem causes_mk_some (c : Cls) (t : String) (p : Payload) (e : Exc) (x : Option Exc) (s : Bool) :
     (Exc.mk c t p (some e) x s).causes = Exc.mk c t p (some e) x s :: e.causes := by
@@ -274,10 +274,10 @@ def causesTail (x : Exc) : List Exc :=
 
 theorem causes_cons_tail (x : Exc) : x.causes = x :: causesTail x := causes_eq x
 
-theorem causes_recreate (fl : Flags) (hi : fl.includeOriginal = true) (x : Exc) (hcc : x.context = x.cause) :
+theorem causes_recreate (fl : Flags) (hi : fl.includeOriginal = true) (x : Exc) :
     (recreate fl x).causes = recreate fl x :: causesTail x := by
   rw [causes_eq (recreate fl x), recreate_cause, hi]
-  simp only [if_true, hcc, causesTail]
+  simp only [if_true, causesTail]
 
 theorem causes_recreate_no_include (fl : Flags) (hi : fl.includeOriginal = false) (x : Exc) :
     (recreate fl x).causes = [recreate fl x] := by
